@@ -14,6 +14,12 @@ for nt, k, tiers in ((3, 2, ("quick", "thorough")), (2, 1, ("quick", "thorough")
              "acknowledgement still tracks every replaced block" % (nt, k),
         harness=R + "ZZVerif_C06_StopDuringReorg", params={"NT": nt, "K": k}, tiers=tiers, reach=["served"], time_limit_s=1500,
         bounds="%d consecutive tracked blocks from 1, any finalized block below the replaced ones, arbitrary hashes" % nt))
+for nt, k, tiers in ((2, 1, ("quick", "thorough")), (3, 2, ("thorough",))):
+    OBLIGATIONS.append(dict(
+        name="C06.g busy subscriber: %d tracked blocks, the last %d replaced; the subscriber looks at its notification channel only after several check intervals: "
+             "the detection pass still delivers the first replaced block and gets the acknowledgement" % (nt, k),
+        harness=R + "ZZVerif_C06_BusySubscriber", params={"NT": nt, "K": k}, tiers=tiers, reach=["served"], time_limit_s=1500,
+        bounds="%d consecutive tracked blocks from 1, any finalized block below the replaced ones, arbitrary hashes; the subscription's own unbuffered channels" % nt))
 OBLIGATIONS.append(dict(
     name="C06.a driver handleNewBlock: a non-finalized block is tracked (successfully) before it is processed; finalized blocks are not tracked",
     harness="github.com/agglayer/aggkit/sync.ZZVerif_C05_Driver", reach=["tracked"],
@@ -22,6 +28,7 @@ OBLIGATIONS.append(dict(
     name="C06.d driver handleReorg: downloader stopped, store rewound to the notified block (retrying), then acknowledged",
     harness="github.com/agglayer/aggkit/sync.ZZVerif_C06_HandleReorg", bounds="0..2 transient failures of Reorg, any block number"))
 ASSUMPTIONS = ["block hash = uninterpreted function of (parent hash, state root, number, time) (real RLP/Keccak natively)",
-               "subscriber hand-shake through buffered channels with ready acknowledgements; in C06.f the subscriber side runs when the detector blocks on the acknowledgement (cooperative model; a goroutine natively)", "SQL model of SQLite",
+               "subscriber hand-shake through buffered channels with ready acknowledgements; in C06.f the subscriber side runs when the detector blocks on the acknowledgement (cooperative model; a goroutine natively)",
+               "C06.g: a channel send succeeds (the busy subscriber's goroutine takes it later; natively it sleeps 20 check intervals first); a time.After timer may have fired whenever the code looks at it", "SQL model of SQLite",
                "errgroup runs its functions inline, one subscriber"]
 OUTSIDE = "concurrency between the detector and the driver; several subscribers"
